@@ -40,6 +40,8 @@ func init() {
 }
 
 func runC24(c *core.Ctx) {
+	c.Rule("CSVPARSE", "csv: inference and execution parse cells with the same parsers")
+	checkCSVParserAgreement(c, "CSVPARSE")
 	c.Rule("CSVNUM", "csv: a column of integers and floats is inferred as Float")
 	checkCSVNumericInference(c, "CSVNUM")
 	c.Rule("FLOATEXACT", "datasources parse floats exactly")
@@ -720,4 +722,75 @@ func checkStarQualifier(c *core.Ctx, rule string) {
 	})
 	c.Decide(rejects, rule, key, star.Pos(), 1, "a qualifier that matches no column is rejected",
 		"`nosuch.*` with a qualifier that names no table expands to zero columns without an error: json prints {} per row, csv empty lines, the table nothing, and count(*) still counts the rows")
+}
+
+// checkCSVParserAgreement (CSVPARSE): the csv schema is inferred by parsing the previewed cells, and the rows are
+// read by parsing every cell again according to that schema. The two must use the same parser with the same constant
+// arguments for each kind of value: where inference accepts a cell that execution's parser rejects (`+5` for
+// strconv.ParseInt vs fastfloat.ParseInt64) the file cannot be read against its own inferred schema, or the cell
+// silently lands in another alternative of the column's type.
+func checkCSVParserAgreement(c *core.Ctx, rule string) {
+	p := c.Prog
+	key := "datasources/csv inference↔execution/cell parsers"
+	sets := map[string]map[string]bool{}
+	for _, spec := range [][2]string{{"datasources/csv", "Creator"}, {"datasources/csv", "(*DatasourceExecuting).Run"}} {
+		fn := p.Func(spec[0], spec[1])
+		if fn == nil {
+			c.Unknown(rule, key, 0, spec[1]+" not found")
+			return
+		}
+		c.SawFunc(spec[0] + "." + spec[1])
+		info := fn.Info()
+		set := map[string]bool{}
+		ast.Inspect(fn.Decl.Body, func(n ast.Node) bool {
+			call, ok := n.(*ast.CallExpr)
+			if !ok || len(call.Args) == 0 {
+				return true
+			}
+			callee := p.CalleeName(info, call)
+			base := callee[strings.LastIndex(callee, ".")+1:]
+			if !strings.HasPrefix(base, "Parse") || callee == "strconv.ParseBool" && false {
+				return true
+			}
+			// a parser applied to a string-typed cell
+			last := call.Args[len(call.Args)-1]
+			strArg := false
+			for _, a := range call.Args {
+				if t := info.TypeOf(a); t != nil && t.String() == "string" && info.Types[a].Value == nil {
+					strArg = true
+				}
+			}
+			_ = last
+			if !strArg {
+				return true
+			}
+			sig := callee + "("
+			for _, a := range call.Args {
+				if tv := info.Types[a]; tv.Value != nil {
+					sig += tv.Value.ExactString() + ","
+				} else {
+					sig += "cell,"
+				}
+			}
+			set[sig+")"] = true
+			return true
+		})
+		sets[spec[1]] = set
+	}
+	inf, exe := sets["Creator"], sets["(*DatasourceExecuting).Run"]
+	var onlyInf, onlyExe []string
+	for s := range inf {
+		if !exe[s] {
+			onlyInf = append(onlyInf, s)
+		}
+	}
+	for s := range exe {
+		if !inf[s] {
+			onlyExe = append(onlyExe, s)
+		}
+	}
+	sort.Strings(onlyInf)
+	sort.Strings(onlyExe)
+	c.Decide(len(onlyInf) == 0 && len(onlyExe) == 0 && len(inf) >= 3, rule, key, p.Func("datasources/csv", "(*DatasourceExecuting).Run").Decl.Pos(), len(inf)+len(exe), "schema inference and execution parse cells with the same parsers",
+		fmt.Sprintf("schema inference parses cells with %v where execution uses %v: a cell the one accepts and the other rejects (`+5`: strconv.ParseInt accepts it, fastfloat.ParseInt64 does not) makes the file unreadable against its own schema, or moves the cell into another alternative of the column's type", onlyInf, onlyExe))
 }
